@@ -926,12 +926,9 @@ var c06xStructWhole sync.Map // group sig | bk -> *c6sentry
 
 func c06xStructGroup(r *explore.Run, g *wgen.SGroup, canon map[string]*wgen.SGroup) {
 	ref := c06xStructRef(g)
-	style := "suffixed"
-	if g.Bare {
-		style = "abstract"
-	}
+	style := g.Style
 	r.DistinctBytes([]byte(fmt.Sprint(g.TypeName, g.Shape, ref.want)))
-	cg := canon[fmt.Sprint(g.TypeName, g.Bare)]
+	cg := canon[g.TypeName+"|"+g.Style]
 	for _, l := range c06xStructLayouts {
 		var obs []c6obs
 		var judged []bool
@@ -1035,7 +1032,7 @@ func c06xStructCanonMap(groups []*wgen.SGroup) map[string]*wgen.SGroup {
 	canon := map[string]*wgen.SGroup{}
 	for _, g := range groups {
 		if g.Flat {
-			k := fmt.Sprint(g.TypeName, g.Bare)
+			k := g.TypeName + "|" + g.Style
 			if canon[k] == nil {
 				canon[k] = g
 			}
@@ -1083,8 +1080,61 @@ func c06xOnly(r *explore.Run, which string) {
 		c06xChains(r)
 	case "structure":
 		c06xStructure(r)
+	case "repr":
+		c06xNotRepresentable(r)
 	case "new":
 		c06xChains(r)
 		c06xStructure(r)
+	}
+}
+
+// ---------------------------------------------------------------- values that are not representable
+
+// c06xNotRepresentable: an abstract value (literal, abstract arithmetic, named abstract constant) that is not
+// representable in the type its context requires is a shader-creation error in WGSL, in every context that
+// forces the conversion; so are out-of-range suffixed literals, AbstractInt overflow and overflow of a
+// concrete f32 constant expression. naga must reject; substituting a (wrapped / saturated / infinite) value
+// is a violation.
+func c06xNotRepresentable(r *explore.Run) {
+	vals := map[string][]string{
+		"i32": {"2147483648", "-2147483649", "4294967295", "2147483647 + 1", "-2147483647 - 2", "65536 * 65536"},
+		"u32": {"-1", "4294967296", "0 - 1", "2 - 5", "65536 * 65536"},
+		"f32": {"1e39", "-1e39", "1e38 * 10.0", "3.5e38"},
+	}
+	const hdr = "@group(0) @binding(0) var<storage, read_write> o: array<u32>;\n"
+	use := map[string]string{"i32": "u32(x)", "u32": "x", "f32": "u32(x)"}
+	ctxs := []struct{ name, text string }{
+		{"modconst", "const x: %[1]s = %[2]s;\n" + hdr + "@compute @workgroup_size(1) fn main() { o[0] = %[3]s; }\n"},
+		{"fnconst", hdr + "@compute @workgroup_size(1) fn main() { const x: %[1]s = %[2]s; o[0] = %[3]s; }\n"},
+		{"let", hdr + "@compute @workgroup_size(1) fn main() { let x: %[1]s = %[2]s; o[0] = %[3]s; }\n"},
+		{"var", hdr + "@compute @workgroup_size(1) fn main() { var x: %[1]s = %[2]s; o[0] = %[3]s; }\n"},
+		{"private-init", "var<private> x: %[1]s = %[2]s;\n" + hdr + "@compute @workgroup_size(1) fn main() { o[0] = %[3]s; }\n"},
+		{"conversion", hdr + "@compute @workgroup_size(1) fn main() { let x = %[1]s(%[2]s); o[0] = %[3]s; }\n"},
+		{"vector-component", hdr + "@compute @workgroup_size(1) fn main() { let x = vec2<%[1]s>(%[2]s, %[1]s()).x; o[0] = %[3]s; }\n"},
+		{"named-abstract", "const a = %[2]s;\nconst x: %[1]s = a;\n" + hdr + "@compute @workgroup_size(1) fn main() { o[0] = %[3]s; }\n"},
+		{"argument", "fn f(x: %[1]s) -> u32 { return %[3]s; }\n" + hdr + "@compute @workgroup_size(1) fn main() { o[0] = f(%[2]s); }\n"},
+	}
+	probe := func(ctx, ty, e, src string) {
+		r.Count("evaluations", 1)
+		r.Count("evaluations_not_representable", 1)
+		if ok, _, pn := compiles(src); !pn && ok {
+			r.Violate(explore.Violation{Key: "C06|representable|" + ctx + "|" + ty + "|accepted",
+				Detail: fmt.Sprintf("%s is not representable in %s (context %s): a shader-creation error in WGSL, but the program compiles", e, ty, ctx), Replay: map[string]any{"src": src}})
+		}
+	}
+	for _, ty := range []string{"i32", "u32", "f32"} {
+		for _, e := range vals[ty] {
+			for _, c := range ctxs {
+				probe(c.name, ty, e, fmt.Sprintf(c.text, ty, e, use[ty]))
+			}
+		}
+	}
+	for _, lx := range [][2]string{{"i32", "2147483648i"}, {"u32", "4294967296u"}, {"f32", "1e39f"}, {"abstract-int", "9223372036854775808"}} {
+		probe("literal", lx[0], lx[1], fmt.Sprintf("const x = %s;\n"+hdr+"@compute @workgroup_size(1) fn main() { o[0] = 1u; }\n", lx[1]))
+	}
+	probe("abstract-arithmetic", "abstract-int", "9223372036854775807 + 1", "const x = 9223372036854775807 + 1;\n"+hdr+"@compute @workgroup_size(1) fn main() { o[0] = 1u; }\n")
+	for _, e := range []string{"3e38f * 10f", "3e38f + 3e38f", "-3e38f - 3e38f"} {
+		probe("concrete-overflow", "f32", e, fmt.Sprintf("const x = %s;\n"+hdr+"@compute @workgroup_size(1) fn main() { o[0] = u32(x); }\n", e))
+		probe("concrete-overflow(fn)", "f32", e, fmt.Sprintf(hdr+"@compute @workgroup_size(1) fn main() { const x = %s; o[0] = u32(x); }\n", e))
 	}
 }
